@@ -1,7 +1,7 @@
 (* C19 — Serialization round-trips Polylines and Planes at the stated precision.
    Only statements; each closed by `exact <lemma>` from proofs/P_serialize.v.
    The model (M_serialize.v) is of the code with the two proposed fixes applied:
-   fixes/C19-empty-polyline-deserialize.diff and fixes/C19-plane-rounded-direction-decimals.diff.
+   fixes/C19-empty-polyline-deserialize.diff and fixes/C19-plane-rounded-direction-decimals.diff (both committed in /repo).
    The schema term polliwog_defs is compared with the freshly extracted polliwog/schema.json on every run. *)
 From Coq Require Import ZArith Reals List Bool String.
 From PW Require Import Num NumR Vec NpList Result.
@@ -22,7 +22,7 @@ Proof. exact serialize_validates. Qed.
 Theorem C19_roundtrip_polyline : forall d (p : polyline R),
   pl_deserialize (pl_serialize ROps d p) = Ok (pl_rounded ROps d p) /\
   pclosed (pl_rounded ROps d p) = pclosed p /\ pv (pl_rounded ROps d p) = map (vround ROps d) (pv p).
-Proof. intros d p. split; [apply roundtrip_polyline|split; reflexivity]. Qed.
+Proof. exact roundtrip_polyline_full. Qed.
 
 (* Plane: whenever rounded succeeds, serialize returns a valid document of the rounded plane; deserialize re-checks
    unit length at the default precision and, at the default direction precision, returns rounded() itself *)
@@ -31,15 +31,20 @@ Theorem C19_roundtrip_plane : forall pd dd (pl r : plane R), plane_rounded ROps 
   plane_deserialize ROps (plane_to_json r) = plane_ctor ROps (pref r) (pnormal r) default_dd /\
   (dd = default_dd -> plane_deserialize ROps (plane_to_json r) = Ok r).
 Proof. exact roundtrip_plane. Qed.
-(* rounded (with the fix) validates the rounded normal at the requested precision, and what it returns is the
-   coordinate-wise rounding.  MISSING (not proved): that the test always passes for an exactly unit normal, i.e.
-   | |round(n)| - 1 | <= sqrt(3)/2 * 10^-dd < 10^-dd — validated by the correspondence for dd = 0..12 only *)
-Theorem C19_plane_rounded_is_coordinatewise_partial : forall pd dd (pl r : plane R),
-  plane_rounded ROps pd dd pl = Ok r -> pref r = vround ROps pd (pref pl) /\ pnormal r = vround ROps dd (pnormal pl).
-Proof.
-  intros pd dd pl r H. unfold plane_rounded, plane_ctor in H.
-  destruct (nleb ROps _ _) in H; [|discriminate]. injection H as <-. split; reflexivity.
-Qed.
+(* rounded and serialize succeed for every plane with an exactly unit normal, for every number of position and
+   direction decimals (the coordinate-wise rounding moves the length by at most sqrt(3)/2 * 10^-dd < 10^-dd, which the
+   constructor accepts at dd decimals); what they return is the coordinate-wise rounding, and the document validates *)
+Theorem C19_plane_rounded_succeeds : forall pd dd (pl : plane R), vnorm2 ROps (pnormal pl) = 1 ->
+  plane_rounded ROps pd dd pl = Ok (MkPlane (vround ROps pd (pref pl)) (vround ROps dd (pnormal pl))).
+Proof. exact plane_rounded_succeeds. Qed.
+Theorem C19_plane_serialize_succeeds : forall pd dd (pl : plane R), vnorm2 ROps (pnormal pl) = 1 ->
+  exists j, plane_serialize ROps pd dd pl = Ok j /\ plane_validate j = true.
+Proof. exact plane_serialize_succeeds. Qed.
+(* the complete round trip at the default direction precision, any position precision *)
+Theorem C19_roundtrip_plane_default : forall pd (pl : plane R), vnorm2 ROps (pnormal pl) = 1 ->
+  exists j, plane_serialize ROps pd default_dd pl = Ok j /\ plane_validate j = true /\
+    plane_deserialize ROps j = Ok (MkPlane (vround ROps pd (pref pl)) (vround ROps default_dd (pnormal pl))).
+Proof. exact roundtrip_plane_default. Qed.
 
 (* validate accepts only well-formed documents: an object with exactly the two keys, a boolean isClosed, and vectors
    that are arrays of exactly three numbers (so: missing key, extra key, non-boolean isClosed, bad vector are refused) *)
@@ -59,7 +64,7 @@ Proof. exact plane_validate_wellformed. Qed.
 Theorem C19_deserialize_guarded_by_validate : forall (j : json R),
   (forall p, pl_deserialize j = Ok p -> pl_validate j = true) /\
   (forall p, plane_deserialize ROps j = Ok p -> plane_validate j = true).
-Proof. intros j. split; [apply pl_deserialize_guarded|apply plane_deserialize_guarded]. Qed.
+Proof. exact deserialize_guarded. Qed.
 
 (* non-vacuity: the empty polyline serializes to a document that validates and round-trips *)
 Example C19_empty_polyline_roundtrips :
@@ -67,6 +72,6 @@ Example C19_empty_polyline_roundtrips :
 Proof. exact (roundtrip_polyline 3 (MkPolyline [] true)). Qed.
 
 Definition C19_all := (C19_round_error_half_ulp, C19_serialize_validates, C19_roundtrip_polyline, C19_roundtrip_plane,
-  C19_plane_rounded_is_coordinatewise_partial, C19_validate_polyline_only_wellformed,
+  C19_plane_rounded_succeeds, C19_plane_serialize_succeeds, C19_roundtrip_plane_default, C19_validate_polyline_only_wellformed,
   C19_validate_plane_only_wellformed, C19_deserialize_guarded_by_validate).
 Print Assumptions C19_all.
